@@ -12,7 +12,8 @@ EXPL = ("R08.1 constant propagation of the three skip_* switches through builder
         "R08.3 = R02.3 verdict before bytes. R08.4 branches on skip_* / validate_name gate checks only: the region executed only when "
         "validation is enabled contains no buffer append and no early exit that is not preceded by recording an error. "
         "R08.5 the uniqueness bookkeeping never folds its key (dimension-set index / name) with wrapping or modular arithmetic. "
-        "R08.6 the per-entry dimension sets are adopted only on paths that ran the loop registering their names in the name registry, or on "
+        "R08.7 (= R14.2 on the output buffers and per-set maps) what a rejected or failed entry had already written is "
+        "discarded before the next entry uses the buffers, on every path. R08.6 the per-entry dimension sets are adopted only on paths that ran the loop registering their names in the name registry, or on "
         "which every validation switch that consults the registry is known to be off. "
         "Not decided: completeness of the defect list for arbitrary entries.")
 CR = c02.CR
@@ -203,6 +204,11 @@ def run(ctx):
                           "with validation `%s` enabled the function can return early without recording an error: a valid entry would lose output" % what)
     ctx.floor("R08.4", "branches on validation switches", n4, 8)
 
+    # ------------------------------------------------------------------ R08.7 a rejected entry leaves nothing behind (premise of "no output" and of transparency)
+    import rules.c14 as c14
+    before7 = len(ctx.instances)
+    c14.run(ctx, only_fields=c02.buffer_field(F), rule_prefix="R08.7")
+    ctx.floor("R08.7", "buffers and per-set maps checked for reset-before-use", len([i for i in ctx.instances[before7:] if i["rule"] == "R08.7" and "clean-at-first-use" in i["instance"]]), 7)
     # ------------------------------------------------------------------ R08.6 declared entry dimensions are registered before they are adopted
     VM = "validation_map"
 
